@@ -95,12 +95,56 @@ fn reference(aw: &[&str], bw: &[&str], ic: bool) -> Reference {
 /// one case given as texts only (replay): enforces the domain and derives the words itself
 fn check_texts(run: &mut Run, a: &str, b: &str, ic: bool) {
     if !(in_domain(a) && in_domain(b)) {
-        run.count("skipped:non-ascii-whitespace");
+        if !ic {
+            check_consistency(run, a, b);
+        }
         return;
     }
     let aw: Vec<&str> = a.split_whitespace().collect();
     let bw: Vec<&str> = b.split_whitespace().collect();
     check(run, a, b, ic, &reference(&aw, &bw, ic));
+}
+
+/// Texts with whitespace characters that are not ASCII whitespace: what a "whitespace-separated word"
+/// is there is not settled by the statement (the word counts are not judged), but the last sentence
+/// is: edited_words must be the complement of the matching match_words reports, relative to the word
+/// counts match_words reports, and the pairs must be strictly increasing and inside those counts.
+fn check_consistency(run: &mut Run, a: &str, b: &str) {
+    run.evaluations += 1;
+    run.nontrivial += 1;
+    let case = || case_json(a, b, false);
+    run.sample(case);
+    run.calls += 2;
+    let (pairs, la, lb) = match catch(|| match_words(a, b, false)) {
+        Err(p) => {
+            run.violation("returns", "", case(), format!("match_words panicked: {p}"));
+            return;
+        }
+        Ok(x) => x,
+    };
+    if !pairs.iter().all(|(i, j)| *i < la && *j < lb) {
+        run.violation("indices-in-range", "", case(), format!("pairs {pairs:?} for reported word counts ({la}, {lb})"));
+        return;
+    }
+    if !pairs.windows(2).all(|w| w[0].0 < w[1].0 && w[0].1 < w[1].1) {
+        run.violation("strictly-increasing", "", case(), format!("pairs {pairs:?}"));
+    }
+    match catch(|| edited_words(a, b)) {
+        Err(p) => run.violation("returns", "", case(), format!("edited_words panicked: {p}")),
+        Ok((ea, eb)) => {
+            run.compared += 1;
+            let xa = complement(la, pairs.iter().map(|p| p.0));
+            let xb = complement(lb, pairs.iter().map(|p| p.1));
+            if ea != xa || eb != xb {
+                run.violation(
+                    "edited-words-are-complement-of-matching",
+                    "",
+                    case(),
+                    format!("edited_words = ({:?}, {:?}), match_words(a, b, false) = {pairs:?} with word counts ({la}, {lb}) leaves ({:?}, {:?}) unmatched", sorted(&ea), sorted(&eb), sorted(&xa), sorted(&xb)),
+                );
+            }
+        }
+    }
 }
 
 /// one case: texts `a`, `b` whose whitespace-separated words are `r.aw`, `r.bw`
@@ -285,6 +329,21 @@ fn main() {
                         check_texts(&mut run, b, &a, ic);
                     }
                 }
+            }
+        }
+    }
+    // phase 6: whitespace characters that are not ASCII whitespace (NBSP, VT, ideographic space), as
+    // separators, inside words and as whole texts: the consistency clauses only (check_consistency)
+    {
+        let t6 = tu_verif::enumerate::strings(&["a", "b", " ", "\u{a0}", "\u{b}", "\u{3000}"], run.pick(3, 4));
+        run.bounds.insert("non_ascii_whitespace_phase".into(), json!(format!("all ordered pairs of the {} texts over [a, b, space, NBSP, VT, U+3000] (consistency of edited_words with match_words; word counts not judged)", t6.len())));
+        let base6 = base4 + seqs4.len() + 3 * tu_verif::enumerate::threshold_lengths(run.pick(8, 10)).len();
+        for (ia, a) in t6.iter().enumerate() {
+            if !run.unit((base6 + ia) as u64) {
+                continue;
+            }
+            for b in &t6 {
+                check_texts(&mut run, a, b, false);
             }
         }
     }
